@@ -340,6 +340,7 @@ fn lockstep(case: &Case, steps: usize, mode: Mode) -> Option<(String, String, &'
                 let mut c = case.cpu;
                 let mut mem = case.refmem();
                 let mut latch = false;
+                let mut continued = 0;
                 if !matches!(mach::to_boundary(&mut m, 4), RunEnd::Boundary(_)) {
                     return Some(("completion".to_string(), "no first boundary".to_string(), "?"));
                 }
@@ -376,6 +377,24 @@ fn lockstep(case: &Case, steps: usize, mode: Mode) -> Option<(String, String, &'
                     if mode == Mode::C01 {
                         if let Some((field, what)) = sw::compare(&m, &c, &mem) {
                             return Some((format!("isa/{}/{}", info.form, field), format!("step {}: {}", step, what), info.form));
+                        }
+                    }
+                    // a first-byte STOP is an instruction like any other: after the continue key the program
+                    // goes on with the next instruction, nothing else changed (at most twice per run)
+                    if info.outcome == Outcome::Stop && info.form == "STOP" && continued < 2 {
+                        continued += 1;
+                        m.trigger_key_continue();
+                        match mach::to_boundary(&mut m, 64) {
+                            RunEnd::Boundary(_) => {
+                                if mode == Mode::C01 {
+                                    if let Some((field, what)) = sw::compare(&m, &c, &mem) {
+                                        return Some((format!("isa/STOP-continue/{}", field), format!("step {}: after continue: {}", step, what), info.form));
+                                    }
+                                }
+                                continue;
+                            }
+                            RunEnd::Halted(..) => return None, // supervision (C05)
+                            RunEnd::Timeout => return Some(("isa/STOP-continue/completion".to_string(), format!("step {}: no boundary within 64 edges after continue", step), info.form)),
                         }
                     }
                     if info.outcome != Outcome::Done {
